@@ -140,9 +140,9 @@ CHECKS["C07"] = {
 
 CHECKS["C08"] = {
     "corpus": True,
-    "runs": [R("./vm", {"fn": r"^ZZ_C08_(control_(d1|d2_lite|d1_text)|truthiness|forin_slice|forin_map|forin_corner_entries)$"}, {"fn": r"^ZZ_C08_(control_(d1|d2_b2|d1_text|d2_text)|truthiness|forin_slice|forin_map|forin_corner_entries)$", "wall_timeout": 10000}),
+    "runs": [R("./vm", {"fn": r"^ZZ_C08_(control_(d1|d2_lite|d1_text)|truthiness|forin_slice|forin_map|forin_corner_entries|switch_first_equal)$"}, {"fn": r"^ZZ_C08_(control_(d1|d2_b2|d1_text|d2_text)|truthiness|forin_slice|forin_map|forin_corner_entries|switch_first_equal)$", "wall_timeout": 10000}),
              R("./vm", {"fn": r"^ZZ_C08_forin_long$", "budget": 400000000})],
-    "expect_asserts": [r"C08\.for-in-long/body-runs-exactly-while-the-loop-lasts/.*", r"C08\.probe-trace", r"C08\.error-status", r"C08\.return-value", r"C08\.truthiness/branch-taken-iff-truthy/.*", r"C08\.for-in-slice/index-order-and-element/.*", r"C08\.for-in-map/every-entry-once/.*"],
+    "expect_asserts": [r"C08\.for-in-long/body-runs-exactly-while-the-loop-lasts/.*", r"C08\.switch/exactly-the-first-case-equal-to-the-subject", r"C08\.probe-trace", r"C08\.error-status", r"C08\.return-value", r"C08\.truthiness/branch-taken-iff-truthy/.*", r"C08\.for-in-slice/index-order-and-element/.*", r"C08\.for-in-map/every-entry-once/.*"],
     "bounds": {"long loops": "for-in over []interface{}, []int64, a channel and a counting loop of c-1, c, c+1, 2c+1 iterations for every integer constant c (8..65536, lengths up to 9000) written in /repo/vm and /repo/env (extracted on every run), left by break / return / continue / at the end at the second, middle or next-to-last element",
                "quick": "all abstract programs of depth 1 (11 statement kinds x leaf outcomes x condition truth sequences of <= 2 true evaluations x 0..2 for-in elements) and depth-2 programs over 7 kinds with one nested compound (lite); return leaves are `return v`, bare `return` or `return v, w`; switch cases list one or two expressions; the depth-1 programs are also rendered as source text and run through the parser, with the default clause before, between or after the cases",
                "thorough": "depth 2 with <= 2 compound statements over all 11 kinds, as trees and as source text"},
